@@ -44,6 +44,25 @@ fn facts() -> Vec<String> {
     v
 }
 
+/// Single typeable words of the constants shipped in the `files` data file (pi, G, g0 ...):
+/// a one-word phrase takes the evaluator's WORD path, a several-word phrase the SENTENCE path.
+fn one_word_facts() -> Vec<String> {
+    let mut v: Vec<String> = Vec::new();
+    for c in refdb::constants() {
+        if !c.file.contains("files") {
+            continue;
+        }
+        for t in &c.tokens {
+            if typeable_phrase(std::slice::from_ref(t)) && tables::find_by_name(t).is_none() && units::readings(t).is_empty() {
+                v.push(t.clone());
+            }
+        }
+    }
+    v.sort();
+    v.dedup();
+    v
+}
+
 fn p(s: &str) -> String {
     // operands are parenthesised unless they are a bare fact phrase or plain literal
     if s.contains(' ') && s.chars().next().map(|c| c.is_ascii_digit() || c == '-' || c == '.').unwrap_or(false) {
@@ -66,14 +85,16 @@ impl Prop for C13 {
         false
     }
     fn rule(&self) -> String {
-        "Q = ~125 literal quantities (every proportional unit name once, plus base/derived/prefixed/compound spellings) and every shipped fact with a typeable full word set (~770). a*b=b*a for all ordered pairs of Q (quick: all literal pairs, every fact against a 24-element core and 40 facts against everything); a+b=b+a for the same pairs (incommensurable pairs must fail on both sides); a-a=0 and a/a=1 for all of Q; associativity of + and *, and distributivity written both ways (a*(b+c), (b+c)*a) for all triples over a 40-element core incl. 10 facts (quick 22 incl. 6). Both sides are evaluated by the tool on the same Db and compared in SI normal form. Non-trivial = both sides evaluate to a value; distinct = distinct law instances".into()
+        "Q = ~125 literal quantities (every proportional unit name once, plus base/derived/prefixed/compound spellings) and every shipped fact with a typeable full word set (~770), plus the single typeable words of the `files` constants as one-word phrases (pi, G, g0 ...). a*b=b*a for all ordered pairs of Q (quick: all literal pairs, every fact against a 24-element core and 40 facts against everything); a+b=b+a for the same pairs (incommensurable pairs must fail on both sides); a-a=0 and a/a=1 for all of Q; associativity of + and *, and distributivity written both ways (a*(b+c), (b+c)*a) for all triples over a 40-element core incl. 10 facts (quick 22 incl. 6). Both sides are evaluated by the tool on the same Db and compared in SI normal form. Non-trivial = both sides evaluate to a value; distinct = distinct law instances".into()
     }
     fn assumptions(&self) -> Vec<String> {
         vec!["SI normal form uses the independent unit table".into(), "offset scales are excluded (affine scales are not a field; no shipped fact uses one)".into(), "fact lookups are compared within one Db instance only".into()]
     }
     fn generate(&self, tier: Tier, sink: &mut dyn FnMut(Case)) {
         let lits = literal_quantities();
-        let facts = facts();
+        let mut facts = facts();
+        let one = one_word_facts();
+        facts.extend(one.iter().cloned());
         let mut q: Vec<String> = lits.clone();
         q.extend(facts.iter().cloned());
         // unary laws for all of Q
@@ -100,6 +121,8 @@ impl Prop for C13 {
                 pairs(&facts, &core, sink);
                 pairs(&core, &facts, sink);
                 pairs(&fact_core, &facts, sink);
+                pairs(&one, &facts, sink);
+                pairs(&facts, &one, sink);
             }
             Tier::Thorough => {
                 pairs(&q, &q, sink);
@@ -108,6 +131,9 @@ impl Prop for C13 {
         // triples over a core incl. facts
         let (nl, nf) = tier.pick((16, 6), (30, 10));
         let mut tcore: Vec<String> = lits.iter().step_by((lits.len() / nl).max(1)).take(nl).cloned().collect();
+        for f in one.iter().take(3) {
+            tcore.push(f.clone());
+        }
         for f in ["mercury mass", "earth mass", "earth diameter", "mercury diameter", "population finland", "population world", "earth radius", "mercury radius", "earth orbit distance", "mercury orbital period"].iter().take(nf) {
             tcore.push(f.to_string());
         }
